@@ -133,7 +133,7 @@ def handle (args : List String) (impl : String) : Verdict :=
       match impl.splitOn " ## " with
       | [implOuts, implState] =>
         match implState.splitOn "/" with
-        | [hd, cs, _, _] =>
+        | [hd, cs, as, is] =>
           let implCond : List Bool := if cs == "-" then [] else (cs.splitOn "+").map (fun x => (x.splitOn ",").headD "" == "1")
           let implActive := (hd.splitOn ",").headD "" == "1"
           let condOk := (List.range r.conds.length).all (fun i =>
@@ -147,10 +147,14 @@ def handle (args : List String) (impl : String) : Verdict :=
           let implT := (if implOuts == "-" then [] else implOuts.splitOn "+").filter tgt
           let modelT := (outs.flatten.map outStr).filter tgt
           let actOk := implT == modelT
-          let ok := condOk && allOk && actOk
+          -- "the corresponding action list runs once and the opposite list is marked inactive": the active marks of both
+          -- lists at the end are those the firings of the history leave (theorem c13_actions_once_per_change on the model)
+          let flags := fun (l : String) => if l == "-" then [] else (l.splitOn "+").map (fun x => (x.splitOn ",").headD "" == "1")
+          let marksOk := flags as == r'.acts.map (·.active) && flags is == r'.actsInactive.map (·.active)
+          let ok := condOk && allOk && actOk && marksOk
           { model := m, spec := some ok,
             note := if ok then "" else if !condOk then "class=condition-not-latest-comparison" else if !allOk then "class=rule-active-not-conjunction"
-              else "class=action-firing-differs" }
+              else if !actOk then "class=action-firing-differs" else "class=action-lists-marked-wrongly" }
         | _ => { model := m }
       | _ => { model := m }
     | _, _ => bad "C13 parse"
